@@ -119,8 +119,10 @@ func instrument(path string) (int, int, error) {
 	type ins struct {
 		off  int
 		text string
+		del  int // bytes of the source dropped at off (after the inserted text)
 	}
 	var list []ins
+	nyields := 0
 	add := func(stmts []ast.Stmt) {
 		for _, s := range stmts {
 			switch s.(type) {
@@ -128,7 +130,8 @@ func instrument(path string) (int, int, error) {
 				continue
 			}
 			pos := fset.Position(s.Pos())
-			list = append(list, ins{pos.Offset, fmt.Sprintf("simrt.Y(%d);", pos.Line)})
+			list = append(list, ins{off: pos.Offset, text: fmt.Sprintf("simrt.Y(%d);", pos.Line)})
+			nyields++
 		}
 	}
 	// pointers handed to C: (*C.T)(expr) -> (*C.T)(simrt.CPtr(expr)), and for expr = &x[0]
@@ -176,13 +179,13 @@ func instrument(path string) (int, int, error) {
 			if ix, ok := u.X.(*ast.IndexExpr); ok {
 				if lit, ok := ix.Index.(*ast.BasicLit); ok && lit.Value == "0" && pure(ix.X) {
 					xa, xb := fset.Position(ix.X.Pos()).Offset, fset.Position(ix.X.End()).Offset
-					list = append(list, ins{a, "simrt.CSliceP(" + string(src[xa:xb]) + ", "}, ins{b, ")"})
+					list = append(list, ins{off: a, text: "simrt.CSliceP(" + string(src[xa:xb]) + ", "}, ins{off: b, text: ")"})
 					cptrs++
 					return
 				}
 			}
 		}
-		list = append(list, ins{a, "simrt.CPtr("}, ins{b, ")"})
+		list = append(list, ins{off: a, text: "simrt.CPtr("}, ins{off: b, text: ")"})
 		cptrs++
 	}
 	hasCPtr := func(n ast.Node) bool {
@@ -200,14 +203,87 @@ func instrument(path string) (int, int, error) {
 			switch s.(type) {
 			case *ast.ExprStmt, *ast.AssignStmt:
 				if hasCPtr(s) {
-					list = append(list, ins{fset.Position(s.End()).Offset, "; simrt.CFlush()"})
+					list = append(list, ins{off: fset.Position(s.End()).Offset, text: "; simrt.CFlush()"})
 				}
 			}
 		}
 	}
+	// channel operations outside `select`: ch <- v, <-ch, v, ok := <-ch, close(ch) go through the
+	// scheduler (simrt.SendTo / Recv / Recv2 / Close); the communication clauses of a select
+	// statement are left alone
+	nchans := 0
+	skip := map[ast.Node]bool{}
+	recv2 := map[ast.Node]bool{}
+	unparen := func(e ast.Expr) ast.Expr {
+		for {
+			p, ok := e.(*ast.ParenExpr)
+			if !ok {
+				return e
+			}
+			e = p.X
+		}
+	}
+	closeShadowed := false
 	ast.Inspect(f, func(n ast.Node) bool {
 		switch x := n.(type) {
+		case *ast.CommClause:
+			if x.Comm != nil {
+				ast.Inspect(x.Comm, func(m ast.Node) bool {
+					if m != nil {
+						skip[m] = true
+					}
+					return true
+				})
+			}
+		case *ast.AssignStmt:
+			if len(x.Lhs) == 2 && len(x.Rhs) == 1 {
+				if u, ok := unparen(x.Rhs[0]).(*ast.UnaryExpr); ok && u.Op == token.ARROW {
+					recv2[u] = true
+				}
+			}
+		case *ast.ValueSpec:
+			if len(x.Names) == 2 && len(x.Values) == 1 {
+				if u, ok := unparen(x.Values[0]).(*ast.UnaryExpr); ok && u.Op == token.ARROW {
+					recv2[u] = true
+				}
+			}
+		case *ast.FuncDecl:
+			if x.Name.Name == "close" && x.Recv == nil {
+				closeShadowed = true
+			}
+		case *ast.Ident:
+			if x.Name == "close" && x.Obj != nil && x.Obj.Kind != ast.Bad && x.Obj.Decl != nil {
+				closeShadowed = true
+			}
+		}
+		return true
+	})
+	ast.Inspect(f, func(n ast.Node) bool {
+		switch x := n.(type) {
+		case *ast.SendStmt:
+			if !skip[x] {
+				list = append(list,
+					ins{off: fset.Position(x.Chan.Pos()).Offset, text: "simrt.SendTo("},
+					ins{off: fset.Position(x.Arrow).Offset, text: ")(", del: 2},
+					ins{off: fset.Position(x.Value.End()).Offset, text: ")"})
+				nchans++
+			}
+		case *ast.UnaryExpr:
+			if x.Op == token.ARROW && !skip[x] {
+				fn := "simrt.Recv("
+				if recv2[x] {
+					fn = "simrt.Recv2("
+				}
+				list = append(list,
+					ins{off: fset.Position(x.Pos()).Offset, text: fn, del: 2},
+					ins{off: fset.Position(x.End()).Offset, text: ")"})
+				nchans++
+			}
 		case *ast.CallExpr:
+			if id, ok := x.Fun.(*ast.Ident); ok && id.Name == "close" && len(x.Args) == 1 && !closeShadowed && !skip[x] {
+				list = append(list, ins{off: fset.Position(id.Pos()).Offset, text: "simrt.Close", del: 5})
+				nchans++
+			}
 			if isCPtrConv(x) {
 				wrapC(x)
 			}
@@ -224,19 +300,19 @@ func instrument(path string) (int, int, error) {
 		return true
 	})
 	for _, r := range mapRanges[path] {
-		list = append(list, ins{r[0], "simrt.Ordered("}, ins{r[1], ")"})
+		list = append(list, ins{off: r[0], text: "simrt.Ordered("}, ins{off: r[1], text: ")"})
 		nmaps++
 	}
 	// package clause: add the import on the same line
 	pkgEnd := fset.Position(f.Name.End()).Offset
-	list = append(list, ins{pkgEnd, `; import simrt "github.com/onflow/crypto/simrt"`})
+	list = append(list, ins{off: pkgEnd, text: `; import simrt "github.com/onflow/crypto/simrt"`})
 	sort.SliceStable(list, func(i, j int) bool { return list[i].off < list[j].off })
 	var out bytes.Buffer
 	last := 0
 	for _, in := range list {
 		out.Write(src[last:in.off])
 		out.WriteString(in.text)
-		last = in.off
+		last = in.off + in.del
 	}
 	out.Write(src[last:])
 	out.WriteString("\nvar _ = simrt.Y\n")
@@ -248,5 +324,6 @@ func instrument(path string) (int, int, error) {
 		res = bytes.ReplaceAll(res, []byte("sync.Once"), []byte("simrt.Once"))
 		res = append(res, []byte("\nvar _ sync.Locker\n")...)
 	}
-	return len(list) - 1 - 2*cptrs - 2*nmaps, locks, os.WriteFile(path, res, 0o644)
+	_, _ = nmaps, nchans
+	return nyields, locks, os.WriteFile(path, res, 0o644)
 }
